@@ -169,7 +169,10 @@ def b(ctx):
     hold = set(pseudo(cfg, "%s.remote in self._backlogs" % m, True))
     con_t = set(pseudo(cfg, "%s.mtype == CON" % m, True)) | set(pseudo(cfg, "%s.mtype is CON" % m, True))
     both = {h for h in hold if any(cfg.dominates(c, h) for c in con_t)}
-    ctx.need(both, "send_message has no branch `mtype == CON and remote in self._backlogs`")
+    if not both:
+        ctx.ob("send_message holds a CON back exactly when its remote has a backlog entry (membership, not emptiness)", False, fi, enq[0][1] if enq else fi.node,
+               detail="no branch on `mtype == CON and remote in self._backlogs`")
+        return
     for c, bnd in sends:
         nid = cfg.loc1(c)
         ctx.ob("nothing is transmitted at once when a CON's remote has an open exchange", nid not in cfg.reach(both), fi, c)
@@ -186,20 +189,24 @@ def c(ctx):
     enq = []
     deq = []
     for f in mm_funcs(ctx.prog):
-        for n in walk_no_nested(f.node):
-            if isinstance(n, ast.Call) and isinstance(n.func, ast.Attribute) and isinstance(n.func.value, ast.Subscript) and chain(n.func.value.value) == BL:
-                a = n.func.attr
-                if a in ("append", "insert", "appendleft"):
-                    end = "back" if a == "append" else ("front" if a == "appendleft" or (n.args and isinstance(n.args[0], ast.Constant) and n.args[0].value == 0) else "?")
-                    enq.append((f, n, end))
-                elif a in ("pop", "popleft"):
-                    if a == "popleft" or (n.args and isinstance(n.args[0], ast.Constant) and n.args[0].value == 0):
-                        end = "front"
-                    elif not n.args or (isinstance(n.args[0], ast.UnaryOp) and ast.unparse(n.args[0]) == "-1"):
-                        end = "back"
-                    else:
-                        end = "?"
-                    deq.append((f, n, end))
+        for k, n in stores_to(f.node, BL, nested=False):
+            if not (isinstance(n, ast.Call) and isinstance(n.func, ast.Attribute)):
+                continue
+            recv = resolve_local(f.node, n.func.value) if isinstance(n.func.value, ast.Name) else n.func.value
+            if not (isinstance(recv, ast.Subscript) and chain(recv.value) == BL):
+                continue  # operations on the table itself, not on a remote's queue
+            a = n.func.attr
+            if a in ("append", "insert", "appendleft"):
+                end = "back" if a == "append" else ("front" if a == "appendleft" or (n.args and isinstance(n.args[0], ast.Constant) and n.args[0].value == 0) else "?")
+                enq.append((f, n, end))
+            elif a in ("pop", "popleft"):
+                if a == "popleft" or (n.args and isinstance(n.args[0], ast.Constant) and n.args[0].value == 0):
+                    end = "front"
+                elif not n.args or (isinstance(n.args[0], ast.UnaryOp) and ast.unparse(n.args[0]) == "-1"):
+                    end = "back"
+                else:
+                    end = "?"
+                deq.append((f, n, end))
     ctx.floor("enqueue sites", len(enq), 1)
     ctx.floor("dequeue sites", len(deq), 1)
     ends = {e for _, _, e in enq}
@@ -252,27 +259,42 @@ def d(ctx):
         if len(a) == 2 and all(isinstance(x, ast.Name) for x in a):
             for w in writes_to_name(fi.node, a[0].id):
                 if isinstance(w, ast.Assign) and isinstance(w.targets[0], ast.Tuple) and [getattr(e, "id", None) for e in w.targets[0].elts] == [a[0].id, a[1].id] and any(w.value is p for p in pops):
-                    src_ok = match("self._backlogs[%s]" % r, w.value.func.value) is not None
+                    qv = w.value.func.value
+                    if isinstance(qv, ast.Name):
+                        qv = resolve_local(fi.node, qv)
+                    src_ok = match("self._backlogs[%s]" % r, qv) is not None
         ctx.ob("what is released is the head of that remote's backlog together with its error monitor", src_ok, fi, c)
-    dels = [(k, n) for k, n in stores_to(fi.node, BL) if k in ("delitem",) or (k == "pop" and not isinstance(n.func.value, ast.Subscript))]
+    dels = [(k, n) for k, n in stores_to(fi.node, BL) if k in ("delitem",) or (k == "pop" and chain(n.func.value) == BL)]
     ctx.floor("backlog entry deletions in _continue_backlog", len(dels), 1)
+
+    def is_queue(e):
+        if isinstance(e, ast.Name):
+            e = resolve_local(fi.node, e)
+        return match("self._backlogs[%s]" % r, e) is not None
+
+    def says_empty(e, pol):
+        if is_queue(e):
+            return not pol
+        if isinstance(e, ast.Compare) and len(e.ops) == 1:
+            l, rr, op = e.left, e.comparators[0], e.ops[0]
+            if is_queue(rr) and not is_queue(l):
+                l, rr = rr, l
+            if is_queue(l) and isinstance(rr, (ast.List, ast.Tuple)) and not rr.elts:
+                return pol if isinstance(op, ast.Eq) else (not pol if isinstance(op, ast.NotEq) else False)
+            ln_ = l if (isinstance(l, ast.Call) and chain(l.func) == "len" and len(l.args) == 1 and is_queue(l.args[0])) else None
+            if ln_ is not None and isinstance(rr, ast.Constant) and rr.value == 0:
+                if isinstance(op, ast.Eq):
+                    return pol
+                if isinstance(op, (ast.Gt, ast.NotEq)):
+                    return not pol
+        if isinstance(e, ast.Call) and chain(e.func) == "len" and len(e.args) == 1 and is_queue(e.args[0]):
+            return not pol
+        return False
+
     for k, n in dels:
         nid = cfg.loc1(n)
         gs = guard_exprs(cfg, nid)
-        empty = False
-        for e, pol in gs:
-            if match("self._backlogs[%s] != []" % r, e) is not None and not pol:
-                empty = True
-            if match("self._backlogs[%s] == []" % r, e) is not None and pol:
-                empty = True
-            if match("self._backlogs[%s]" % r, e) is not None and not pol:
-                empty = True
-            if match("len(self._backlogs[%s]) == 0" % r, e) is not None and pol:
-                empty = True
-            if match("len(self._backlogs[%s]) > 0" % r, e) is not None and not pol:
-                empty = True
-            if match("len(self._backlogs[%s])" % r, e) is not None and not pol:
-                empty = True
+        empty = any(says_empty(e, pol) for e, pol in gs)
         ctx.ob("the backlog entry is deleted only when it is empty", empty, fi, n, detail="guards: %s" % [stmt_text(e) for e, _ in gs])
         ctx.ob("the entry is deleted only while no exchange with that remote is active", any(is_active_test(e) and not pol for e, pol in gs), fi, n)
         ctx.ob("after deleting the entry nothing more is released", not (set(cfg.reach({nid})) & {cfg.loc1(c) for c, _ in sends}), fi, n)
@@ -355,6 +377,7 @@ R.seed("C14.b", F_MM, "        if message.mtype == CON and message.remote in sel
 R.seed("C14.b", F_MM, "        if message.mtype == CON and message.remote in self._backlogs:", "        if message.mtype == CON and message.remote in self._active_exchanges:", "wrong table")
 R.seed("C14.b", F_MM, "            self._backlogs[message.remote].append((message, messageerror_monitor))\n        else:\n            self._send_initially(message, messageerror_monitor)", "            self._backlogs[message.remote].append((message, messageerror_monitor))\n        self._send_initially(message, messageerror_monitor)", "sent although queued")
 R.seed("C14.c", F_MM, "self._backlogs[remote].pop(0)", "self._backlogs[remote].pop()", "LIFO")
+R.seed("C14.b", F_MM, "        if message.mtype == CON and message.remote in self._backlogs:", "        if message.mtype == CON and self._backlogs.get(message.remote):", "truthiness instead of membership: an empty backlog entry (exchange open, nothing queued yet) lets the next CON through")
 R.seed("C14.d", F_MM, "        while not any(r == remote for r, mid in self._active_exchanges.keys()):", "        while True:", "releases everything at once")
 R.seed("C14.d", F_MM, "            if self._backlogs[remote] != []:\n                next_message", "            if self._backlogs[remote] == []:\n                next_message", "inverted emptiness test")
 R.seed("C14.d", F_MM, "                del self._backlogs[remote]\n                break", "                del self._backlogs[remote]", "loop continues after delete")
